@@ -283,13 +283,16 @@ func TestC20(t *testing.T) {
 
 			return g.Build(Methods[rapid.IntRange(0, len(Methods)-1).Draw(t, "method")])
 		})
-		c := &Case{Reqs: rapid.SliceOfN(reqGen, 1, 10).Draw(rt, "reqs")}
+		c := &Case{Reqs: rapid.SliceOfN(reqGen, 1, 10).Draw(rt, "reqs"), Parallel: rapid.IntRange(0, 3).Draw(rt, "parallel") == 0}
 		reached := check(rt, c, "TestC20")
 		vkit.S.Eval()
 		for _, r := range c.Reqs {
 			vkit.S.Class("method:" + r.Method)
 		}
 		vkit.S.ClassN("hostile-requests-that-reached-service-code", reached)
+		if c.Parallel {
+			vkit.S.Class("requests-sent-in-parallel")
+		}
 		if reached > 0 {
 			vkit.S.Nontrivial(c)
 		}
